@@ -1,6 +1,7 @@
 """C18 - ontology comparison (clauses: ROLE old/new in the 12 accessors, COVER decision coverage of the deltas)"""
 import re
 from engines import bool_polarity, kind_elements
+from engines import check_complete_iteration
 from prov import Prov, params_of, field_names
 
 CLAIM = ("(ROLE) every `added_X` accessor iterates the NEW ontology (rhs) and looks each item up in the OLD one (lhs), keeping it iff the lookup is none; "
@@ -81,6 +82,7 @@ def run(ck, prog, ctx):
                     els += kind_elements(fb)
                 foreign = [e for e in els if e[0] != KIND[ent]]
                 ck.ob("KIND", "K1/" + name, not foreign, "%s %s" % (name, "uses %s only" % KIND[ent] if not foreign else "uses a %s element: %s" % (foreign[0][0], foreign[0][1])), where=b.where())
+    check_complete_iteration(ck, "ROLE", prog, [C + "%s_%s" % (m, e) for m in ("added", "removed", "changed") for e in LOOKUPS] + ["ontology::comparison::AnnotationDelta::delta", "ontology::comparison::HpoTermDelta::new"], "the entities of the iterated ontology")
     ck.floor("ROLE", "comparison accessors", n_acc, 12)
 
     # ------------------------------------------------------------------ HpoTermDelta::new
